@@ -136,7 +136,7 @@ package cache
 // Record: a kept decision is stored with the trace's rate and an index naming its reason; a dropped one is
 // put into the dropped-trace filter. CheckSpan / CheckTrace: dropped wins over kept; a kept entry answers
 // with the recorded rate and reason; nothing remembered answers not-found.
-//@ contract collect/cache.(*cuckooSentCache).Record props C31
+//@ contract collect/cache.(*cuckooSentCache).Record props C31,C01
 //@   arith math
 //@   requires c != nil && c.kept != nil && c.dropped != nil && c.recentDroppedIDs != nil && c.keptReasons != nil && asPtr(trace, *types.Trace) != nil
 //@   requires[reasons-indexed] indexed(c.keptReasons)
@@ -164,7 +164,7 @@ package cache
 // CheckSpan is CheckTrace plus a short-lived memo of recently seen dropped IDs and the span count of kept entries.
 //@ assume collect/cache.(*keptTraceCacheEntry).Count
 //@   modifies t.eventCount, t.spanEventCount, t.spanLinkCount, t.spanCount, s.annotationType
-//@ contract collect/cache.(*cuckooSentCache).CheckSpan props C31
+//@ contract collect/cache.(*cuckooSentCache).CheckSpan props C31,C01
 //@   arith math
 //@   requires c != nil && c.kept != nil && c.dropped != nil && c.keptReasons != nil && c.recentDroppedIDs != nil && span != nil
 //@   requires[reasons-indexed] indexed(c.keptReasons)
